@@ -14,6 +14,12 @@ ENGINES = [
 NOTES = "Property-based testing and fuzzing only. See DESIGN.md. Known findings: /verif/known_findings.json."
 NOT_APPLICABLE = {}
 CHECKS = {
+    "C09": {
+        "text": "Targeted generation: 18 reject shapes and 13 accept shapes of a read relative to its definition, 5 forms of use, 12 positions; verdict oracle by shape, and every accepted program is executed and must not raise NameError / UnboundLocalError / AttributeError. ~24k cases per quick run.",
+        "design_ref": "DESIGN.md section 6 C09",
+        "note": "'Defined in both branches, used after' is asserted in neither direction. One open finding (assignment to a top-level variable inside a function lacks `global`) keeps that use form at top level.",
+        "technique": "property-based testing: use-site x definition-shape matrix with a dominance-based verdict oracle and execution of accepted programs (Hypothesis)",
+    },
     "C08": {
         "text": "Generated exception forests, a raising callee and an enclosing function or method whose body is a random tree of raising sites nested in branches, loops, match arms, sequences and handles (guarded call, sites inside arms, sites after the handle), with the raise declaration drawn exact / empty / ancestors / random / non-exception; a coverage model decides the expected verdict. ~8k cases per quick run.",
         "design_ref": "DESIGN.md section 6 C08",
